@@ -105,7 +105,11 @@ func (verifNoMethods) Assign(context.Context, string) jrpc2.Handler { return nil
 // accepter ends with a closing error, another error, or blocks until the
 // context ends.
 func Harness_C20_loop() {
-	nconn := nondetChoice("connections", 3)
+	maxc := 3
+	if thorough() {
+		maxc = 4
+	}
+	nconn := nondetChoice("connections", maxc)
 	log := &verifSvcLog{}
 	acc := &verifAccepter{}
 	var svcs []*verifSvc
